@@ -239,6 +239,70 @@ func runC05(c *mon.Ctx) {
 							}
 						}
 					}
+					{
+						// the same event as a store may hand it back with extra top-level members whose names differ from the
+						// protected ones by letter case or a case-folding letter only ("Sender", "state_\u212aey"): whichever
+						// trusted loader reads it, the identity fields are the real members', before and after Redact()
+						lj := ref.MustParse(orig)
+						if added := gen.AddFoldVariantKeys(r, lj, typ); len(added) > 0 {
+							ltext := gen.Plain().Bytes(lj)
+							hj := lj.Clone()
+							hj.Set("_room_version", ref.S(string(ver)))
+							hj.Set("_event_id", ref.S(idBefore))
+							loaders := map[string]func() (gmsl.PDU, error){
+								"trusted":         func() (gmsl.PDU, error) { return impl.NewEventFromTrustedJSON(ltext, false) },
+								"trusted-with-id": func() (gmsl.PDU, error) { return impl.NewEventFromTrustedJSONWithEventID(idBefore, ltext, false) },
+								"headered":        func() (gmsl.PDU, error) { return gmsl.NewEventFromHeaderedJSON(gen.Plain().Bytes(hj), false) },
+							}
+							for lname, load := range loaders {
+								lp, err := load()
+								if err != nil {
+									c.Count("lookalike_loads_refused")
+									continue
+								}
+								c.Count("lookalike_loads")
+								tuple := func() string {
+									room := ""
+									mon.Guard(func() { room = lp.RoomID().String() })
+									sk := "<nil>"
+									if lp.StateKey() != nil {
+										sk = *lp.StateKey()
+									}
+									return fmt.Sprintf("type=%q sender=%q room=%q state_key=%q", lp.Type(), lp.SenderID(), room, sk)
+								}
+								skw := "<nil>"
+								if skB != nil {
+									skw = *skB
+								}
+								roomW := roomB
+								if t.Domainless && typB == "m.room.create" && skB != nil && *skB == "" {
+									// the room ID of such an event is its event ID with the sigil swapped
+									roomW = "!" + idBefore[1:]
+									if lname == "trusted" {
+										roomW = "!" + ref.EventID(t, lj)[1:]
+									}
+								}
+								want := fmt.Sprintf("type=%q sender=%q room=%q state_key=%q", typB, sndB, roomW, skw)
+								if got := tuple(); got != want {
+									c.Failf("redact:lookalike-key:loaded-event-reports-it:"+lname, "v%s: an event with the extra member(s) %q loaded through %s reports %s; its own members say %s", ver, added, lname, got, want)
+									continue
+								}
+								idL := lp.EventID()
+								if t.EventIDFormat >= 2 && lname == "trusted" {
+									if wantID := ref.EventID(t, lj); idL != wantID {
+										c.Failf("redact:lookalike-key:event-id-not-reference-hash:"+lname, "v%s: an event with the extra member(s) %q loaded through %s has the ID %s; the reference hash of its redacted form is %s", ver, added, lname, idL, wantID)
+									}
+								}
+								lp.Redact()
+								if got := tuple(); got != want {
+									c.Failf("redact:identity-changed:lookalike-key:"+lname, "v%s: an event with the extra member(s) %q loaded through %s reports %s after Redact(), before %s", ver, added, lname, got, want)
+								}
+								if t.EventIDFormat >= 2 && lp.EventID() != idL {
+									c.Failf("redact:event-id-changed:lookalike-key:"+lname, "v%s: event ID %s after Redact() of an event with the extra member(s) %q, before %s", ver, lp.EventID(), added, idL)
+								}
+							}
+						}
+					}
 					p.Redact()
 					if r2, _, _ := ref.Parse(p.JSON()); r2 == nil || !ref.Equal(r2, rv) {
 						c.Failf("redact:not-idempotent:"+typ, "second Redact() changed the event (v%s)", ver)
